@@ -136,6 +136,10 @@ func execDescCalls(s *Sexp) string {
 		if len(s.List) > 6 {
 			data, _ = unhx(s.List[6].Atom)
 		}
+		// an earlier caller tailored ITS copy of the descriptor (dropped and renamed elements below the top
+		// level); what the codec hands out next is still T's Descriptor
+		d0 := cd.Descriptor()
+		tailorDesc(&d0)
 		d := cd.Descriptor()
 		var rec recOut
 		if err := d.Read(&rec, data); err != nil {
@@ -143,6 +147,19 @@ func execDescCalls(s *Sexp) string {
 		}
 		return "ok " + strings.Join(rec.calls, " ")
 	})
+}
+
+// tailorDesc: what a caller may do to its own copy: rename, reorder and delete elements in place
+func tailorDesc(d *plenccodec.Descriptor) {
+	for i := range d.Elements {
+		tailorDesc(&d.Elements[i])
+		d.Elements[i].Name = "tailored"
+		d.Elements[i].Index += 1000
+	}
+	if n := len(d.Elements); n > 1 {
+		d.Elements[0], d.Elements[n-1] = d.Elements[n-1], d.Elements[0]
+		d.Elements = append(d.Elements[:0], d.Elements[1:]...)
+	}
 }
 
 // ---- expected JSON-model image of a value (independent of plenc and of the model)
